@@ -365,10 +365,7 @@ def run_ufunc(sub, chunks, scheduler, classes, ctx):
     ch = dict(chunks)
     wider = any(max(sub["widths"][n]) > sum(ch[d]) for d, n in zip(core, opax))
     if wider and sub["boundary"] == "periodic":
-        classes.append("periodic-pad-wider-than-axis")
-        if ctx is not None and ctx.known("C06-lazy-periodic-pad-wider-than-axis"):
-            ctx.count_excluded("C06-lazy-periodic-pad-wider-than-axis")
-            return "excluded"
+        classes.append("periodic-pad-wider-than-axis")   # (was finding C06-lazy-periodic-pad-wider-than-axis, repaired)
     if mode == "parallelized":
         for d in core:  # xarray itself refuses chunked core dims with dask='parallelized'
             ch[d] = [sum(ch[d])]
